@@ -1,12 +1,17 @@
 (* Model/Router.v — executable model of internal/storage/middlewares/conditional/conditional.go
-   (lookupStorage, per-bucket delegation, ListBuckets merge, cross-storage CopyObject) over abstract
-   backing storages.  A backing storage is a map bucket -> (key -> object); an object is its content
-   id plus four observable attributes.  Every mapping entry is its own storage INSTANCE (as
-   storage/config builds them); entries may share a backing database.  No proofs here. *)
+   (lookupStorage, per-bucket delegation, ListBuckets merge, cross-storage CopyObject and
+   UploadPartCopy with readSourceForCopy / copySourceConditionsSatisfied) over abstract backing
+   storages.  A backing storage is a map bucket -> (versioning flag, key -> versions); an object
+   version is its content plus four observable attributes and a Last-Modified instant.  Every
+   mapping entry is its own storage INSTANCE (as storage/config builds them); entries may share a
+   backing database.  The same-storage copy of the backing storage (metadatapart copy.go /
+   multipart.go UploadPartCopy / evaluateCopySourceConditions) is modelled separately
+   ([inner_*]) so that the two can be compared.  No proofs here. *)
 From Verif Require Import Bytes Codec.
 
 Record obj := { o_data : bytes; o_c : bool (* content type *); o_u : bool (* user metadata *);
-                o_t : bool (* tags *); o_m : bool (* multipart ETag *) }.
+                o_t : bool (* tags *); o_m : bool (* multipart ETag *);
+                o_lm : Z (* Last-Modified, milliseconds *) }.
 
 (* byte-lexicographic order *)
 Fixpoint bytes_ltb (a b : bytes) : bool :=
@@ -32,8 +37,9 @@ Section Assoc.
     match l with [] => [] | (k', v) :: r => if bytes_eqb k k' then r else (k', v) :: adel k r end.
 End Assoc.
 
-Definition bucket_st := list (bytes * obj).
-Definition store := list (bytes * bucket_st).
+Inductive ver := VObj (o : obj) | VMarker.
+Record bucket := { b_versioned : bool; b_keys : list (bytes * list ver) (* versions, newest first *) }.
+Definition store := list (bytes * bucket).
 Definition world := list store.                       (* backing databases 0 (default), 1, 2, ... *)
 Definition cfg := list (bytes * nat).                 (* bucketToStorageMap: bucket -> backing id *)
 
@@ -55,12 +61,182 @@ Fixpoint upd_nth {A} (i : nat) (f : A -> A) (l : list A) : list A :=
   | x :: r, S i' => x :: upd_nth i' f r
   end.
 
-Inductive res := ROk | RNoSuchBucket | RNoSuchKey | RExists | RNotEmpty | RHead (o : obj) | RList (l : list bytes).
+(* source version id as reported back: none / "null" (unversioned bucket) / n-th version of the key *)
+Inductive svid := SNone | SNull | SIdx (n : nat).
+
+Inductive res :=
+| ROk | RNoSuchBucket | RNoSuchKey | RExists | RNotEmpty | RPrecondition | RInvalidRange
+| RDeleteMarker | RMethodNotAllowed | RUploadNoSuchBucket
+| RCopied (v : svid) | RHead (o : obj) | RList (l : list bytes).
+
+(* ---------- copy options ---------- *)
+Inductive etag_cond := EEq | EWild | EOther.          (* the header value vs the source's ETag *)
+Inductive range := RgNone | RgSpan (s : Z) (e : option Z) | RgSuffix (n : Z).   (* storage.ByteRange, exclusive end *)
+Record conds := { c_im : option etag_cond; c_inm : option etag_cond;
+                  c_ius : option Z; c_ims : option Z   (* absolute instants, milliseconds *) }.
+Record copts := { co_vid : option nat; co_range : range; co_conds : conds }.
+Definition no_conds : conds := {| c_im := None; c_inm := None; c_ius := None; c_ims := None |}.
+Definition no_opts : copts := {| co_vid := None; co_range := RgNone; co_conds := no_conds |}.
+
+(* time.Time.Truncate(time.Second) on milliseconds *)
+Definition trunc_s (t : Z) : Z := (t / 1000 * 1000)%Z.
+Definition etag_is (c : etag_cond) : bool := match c with EEq => true | _ => false end.
+
+(* conditional.go copySourceConditionsSatisfied *)
+Definition cross_conditions (c : conds) (lm : Z) : bool :=
+  let im_passed := match c_im c with Some e => match e with EOther => false | _ => true end | None => false end in
+  if match c_im c with Some _ => negb im_passed | None => false end then false
+  else if match c_inm c with Some e => match e with EOther => false | _ => true end | None => false end then false
+  else
+    let lmt := trunc_s lm in
+    if match c_ius c with Some t => negb (match c_im c with Some _ => im_passed | None => false end) && (t <? lmt)%Z | None => false end then false
+    else if match c_ims c with Some t => negb (t <? lmt)%Z | None => false end then false
+    else true.
+
+(* metadatapart object_read.go evaluateCopySourceConditions *)
+Definition inner_conditions (c : conds) (lm : Z) : bool :=
+  let if_match_passed :=
+    match c_im c with
+    | Some EWild | Some EEq => true
+    | _ => false
+    end in
+  match c_im c, if_match_passed with
+  | Some _, false => false
+  | _, _ =>
+    match c_inm c with
+    | Some EWild | Some EEq => false
+    | _ =>
+      let last_modified := trunc_s lm in
+      match c_ius c with
+      | Some t =>
+          if negb (match c_im c with Some _ => if_match_passed | None => false end) && (t <? last_modified)%Z then false
+          else match c_ims c with Some t' => (t' <? last_modified)%Z | None => true end
+      | None => match c_ims c with Some t' => (t' <? last_modified)%Z | None => true end
+      end
+    end
+  end.
+
+(* object_read.go normalizeAndValidateRanges: the byte window [start, end) of an object of [size]
+   bytes, None = ErrInvalidRange *)
+Definition norm_window (r : range) (size : Z) : option (Z * Z) :=
+  match r with
+  | RgNone => Some (0, size)%Z
+  | RgSuffix n => if (n <=? 0)%Z then None else Some (size - Z.min n size, size)%Z
+  | RgSpan s e =>
+      if (s <? 0)%Z then None
+      else match e with
+           | Some x => let e' := Z.min x size in if (s >=? e')%Z then None else Some (s, e')
+           | None => Some (s, size)
+           end
+  end.
+(* createRangeReader: an empty window is ErrInvalidRange, except the implicit whole of an empty object *)
+Definition reader_ok (r : range) (win : Z * Z) (size : Z) : bool :=
+  (fst win <? snd win)%Z || (match r with RgNone => true | _ => false end && (size =? 0)%Z).
+(* multipart.go findWhollyCoveredPart on a single-part source: the window is the whole part *)
+Definition covers_part (win : Z * Z) (size : Z) : bool := (fst win =? 0)%Z && (snd win =? size)%Z.
+
+(* GetObject(ranges) / ranged CopyObject: normalise, then open the reader *)
+Definition read_window (r : range) (size : Z) : option (Z * Z) :=
+  match norm_window r size with
+  | Some win => if reader_ok r win size then Some win else None
+  | None => None
+  end.
+(* same-storage UploadPartCopy: a wholly covered part is shared without opening a reader *)
+Definition part_window (r : range) (size : Z) : option (Z * Z) :=
+  match norm_window r size with
+  | Some win => if covers_part win size || reader_ok r win size then Some win else None
+  | None => None
+  end.
+Definition sub_bytes (d : bytes) (w : Z * Z) : bytes :=
+  firstn (Z.to_nat (snd w - fst w)) (skipn (Z.to_nat (fst w)) d).
+Definition sizeZ (d : bytes) : Z := Z.of_nat (length d).
+
+(* ---------- reading a source version (HeadObject / HeadObjectVersion) ---------- *)
+Definition find_version (s : store) (b k : bytes) (vid : option nat) : res + (obj * svid) :=
+  match aget b s with
+  | None => inl RNoSuchBucket
+  | Some bk =>
+      match aget k (b_keys bk) with
+      | None | Some [] => inl RNoSuchKey
+      | Some (v :: vs) =>
+          match vid with
+          | None =>
+              match v with
+              | VMarker => inl RDeleteMarker
+              | VObj o => inr (o, if b_versioned bk then SIdx (S (length vs)) else SNull)
+              end
+          | Some n =>
+              if negb (b_versioned bk) then inl RNoSuchKey
+              else if (n =? 0) || (S (length vs) <? n) then inl RNoSuchKey
+              else match nth_error (v :: vs) (S (length vs) - n) with
+                   | Some (VObj o) => inr (o, SIdx n)
+                   | Some VMarker => inl RMethodNotAllowed
+                   | None => inl RNoSuchKey
+                   end
+          end
+      end
+  end.
+
+(* writing an object: replaces the "null" version of an unversioned bucket, pushes a version otherwise *)
+Definition put_obj (s : store) (b k : bytes) (o : obj) : option store :=
+  match aget b s with
+  | None => None
+  | Some bk =>
+      let old := match aget k (b_keys bk) with Some vs => vs | None => [] end in
+      let vs := if b_versioned bk then VObj o :: old else [VObj o] in
+      Some (aset b {| b_versioned := b_versioned bk; b_keys := aset k vs (b_keys bk) |} s)
+  end.
+
+(* the object a copy writes, given the source version and the window; [cross] = re-put by the
+   middleware with nil options, [mp] = destination assembled by CompleteMultipartUpload *)
+Definition copied_obj (src : obj) (win : Z * Z) (ranged cross mp : bool) (now : Z) : obj :=
+  {| o_data := sub_bytes (o_data src) win;
+     o_c := if mp then false else o_c src;
+     o_u := if mp || cross then false else o_u src;
+     o_t := if mp || cross then false else o_t src;
+     o_m := if mp then true else if ranged || cross then false else o_m src;
+     o_lm := now |}.
+
+Definition is_ranged (r : range) : bool := match r with RgNone => false | _ => true end.
+
+(* conditional.go CopyObject, different instances: readSourceForCopy (HeadObject, conditions,
+   GetObject with the range) on the source storage, PutObject(..., nil, nil) on the destination *)
+Definition cross_copy (ss ds : store) (sb sk db dk : bytes) (o : copts) (mp : bool) (now : Z) : option store * res :=
+  match find_version ss sb sk (co_vid o) with
+  | inl r => (None, r)
+  | inr (src, v) =>
+      if negb (cross_conditions (co_conds o) (o_lm src)) then (None, RPrecondition)
+      else match read_window (co_range o) (sizeZ (o_data src)) with
+           | None => (None, RInvalidRange)
+           | Some win =>
+               match put_obj ds db dk (copied_obj src win (is_ranged (co_range o)) true mp now) with
+               | None => (None, RNoSuchBucket)
+               | Some ds' => (Some ds', RCopied v)
+               end
+           end
+  end.
+
+(* metadatapart CopyObject / UploadPartCopy inside one storage *)
+Definition inner_copy (ss ds : store) (sb sk db dk : bytes) (o : copts) (mp : bool) (now : Z) : option store * res :=
+  match find_version ss sb sk (co_vid o) with
+  | inl r => (None, r)
+  | inr (src, v) =>
+      if inner_conditions (co_conds o) (o_lm src) then
+        match (if mp then part_window else read_window) (co_range o) (sizeZ (o_data src)) with
+        | None => (None, RInvalidRange)
+        | Some win =>
+            match put_obj ds db dk (copied_obj src win (is_ranged (co_range o)) false mp now) with
+            | None => (None, RNoSuchBucket)
+            | Some ds' => (Some ds', RCopied v)
+            end
+        end
+      else (None, RPrecondition)
+  end.
 
 Inductive op :=
-| CreateBucket (b : bytes) | DeleteBucket (b : bytes)
-| Put (b k : bytes) (o : obj) | Del (b k : bytes) | Head (b k : bytes)
-| Copy (sb sk db dk : bytes) | ListBuckets.
+| CreateBucket (b : bytes) (versioned : bool) | DeleteBucket (b : bytes)
+| Put (b k : bytes) (o : obj) | Del (b k : bytes) | Head (b k : bytes) (vid : option nat)
+| Copy (sb sk db dk : bytes) (o : copts) | PartCopy (sb sk db dk : bytes) (o : copts) | ListBuckets.
 
 (* insertion sort by name (slices.SortFunc with strings.Compare) *)
 Fixpoint ins (x : bytes) (l : list bytes) : list bytes :=
@@ -68,31 +244,21 @@ Fixpoint ins (x : bytes) (l : list bytes) : list bytes :=
 Definition isort (l : list bytes) : list bytes := fold_right ins [] l.
 
 Definition buckets_of (s : store) : list bytes := map fst s.
+Definition bucket_empty (bk : bucket) : bool := forallb (fun kv => is_nil (snd kv)) (b_keys bk).
 
-(* the object found by HeadObject/GetObject in a backing store *)
-Definition find_obj (s : store) (b k : bytes) : res + obj :=
-  match aget b s with
-  | None => inl RNoSuchBucket
-  | Some objs => match aget k objs with None => inl RNoSuchKey | Some o => inr o end
-  end.
-
-Definition put_obj (s : store) (b k : bytes) (o : obj) : option store :=
-  match aget b s with None => None | Some objs => Some (aset b (aset k o objs) s) end.
-
-Definition step (c : cfg) (w : world) (o : op) : world * res :=
+Definition step (c : cfg) (now : Z) (w : world) (o : op) : world * res :=
   match o with
-  | CreateBucket b =>
+  | CreateBucket b v =>
       let i := route c b in
       match aget b (get_store w i) with
       | Some _ => (w, RExists)
-      | None => (upd_nth i (aset b []) w, ROk)
+      | None => (upd_nth i (aset b {| b_versioned := v; b_keys := [] |}) w, ROk)
       end
   | DeleteBucket b =>
       let i := route c b in
       match aget b (get_store w i) with
       | None => (w, RNoSuchBucket)
-      | Some [] => (upd_nth i (adel b) w, ROk)
-      | Some _ => (w, RNotEmpty)
+      | Some bk => if bucket_empty bk then (upd_nth i (adel b) w, ROk) else (w, RNotEmpty)
       end
   | Put b k ob =>
       let i := route c b in
@@ -104,64 +270,149 @@ Definition step (c : cfg) (w : world) (o : op) : world * res :=
       let i := route c b in
       match aget b (get_store w i) with
       | None => (w, RNoSuchBucket)
-      | Some objs => (upd_nth i (aset b (adel k objs)) w, ROk)
+      | Some bk =>
+          let keys := if b_versioned bk
+                      then aset k (VMarker :: match aget k (b_keys bk) with Some vs => vs | None => [] end) (b_keys bk)
+                      else adel k (b_keys bk) in
+          (upd_nth i (aset b {| b_versioned := b_versioned bk; b_keys := keys |}) w, ROk)
       end
-  | Head b k =>
-      match find_obj (get_store w (route c b)) b k with inl r => (w, r) | inr ob => (w, RHead ob) end
-  | Copy sb sk db dk =>
-      let si := route c sb in let di := route c db in
-      match find_obj (get_store w si) sb sk with
-      | inl r => (w, r)
-      | inr ob =>
-          (* same instance: the backing storage's own CopyObject keeps every attribute;
-             different instances: HeadObject + GetObject + PutObject(..., nil, nil) *)
-          let ob' := if same_instance c sb db then ob
-                     else {| o_data := o_data ob; o_c := o_c ob; o_u := false; o_t := false; o_m := false |} in
-          match put_obj (get_store w di) db dk ob' with
-          | None => (w, RNoSuchBucket)
-          | Some s' => (upd_nth di (fun _ => s') w, ROk)
-          end
+  | Head b k vid =>
+      match find_version (get_store w (route c b)) b k vid with inl r => (w, r) | inr (ob, _) => (w, RHead ob) end
+  | Copy sb sk db dk co =>
+      let ss := get_store w (route c sb) in let di := route c db in
+      let '(ds', r) := (if same_instance c sb db then inner_copy else cross_copy) ss (get_store w di) sb sk db dk co false now in
+      (match ds' with Some s' => upd_nth di (fun _ => s') w | None => w end, r)
+  | PartCopy sb sk db dk co =>
+      (* CreateMultipartUpload on the destination first, then UploadPartCopy, then Complete *)
+      let ss := get_store w (route c sb) in let di := route c db in
+      match aget db (get_store w di) with
+      | None => (w, RUploadNoSuchBucket)
+      | Some _ =>
+          let '(ds', r) := (if same_instance c sb db then inner_copy else cross_copy) ss (get_store w di) sb sk db dk co true now in
+          (match ds' with Some s' => upd_nth di (fun _ => s') w | None => w end, r)
       end
   | ListBuckets =>
       (w, RList (isort (flat_map (fun e => buckets_of (get_store w (snd e))) c ++ buckets_of (get_store w 0))))
   end.
 
-Fixpoint run (c : cfg) (w : world) (ops : list op) : world * list res :=
+(* the clock: operation number n happens at n seconds + 537 ms *)
+Fixpoint run_from (c : cfg) (n : Z) (w : world) (ops : list op) : world * list res :=
   match ops with
   | [] => (w, [])
-  | o :: r => let '(w1, x) := step c w o in let '(w2, xs) := run c w1 r in (w2, x :: xs)
+  | o :: r => let '(w1, x) := step c (n * 1000 + 537)%Z w o in
+              let '(w2, xs) := run_from c (n + 1)%Z w1 r in (w2, x :: xs)
   end.
+Definition run (c : cfg) (w : world) (ops : list op) : world * list res := run_from c 1%Z w ops.
 
 (* ---------- line protocol: <cfg> <ops> ---------- *)
+Definition show_data (d : bytes) : bytes := match d with [] => B"E" | _ => d end.
 Definition show_flags (o : obj) : bytes :=
   B"c" ++ show_bool (o_c o) ++ B"u" ++ show_bool (o_u o) ++ B"t" ++ show_bool (o_t o) ++ B"m" ++ show_bool (o_m o).
+Definition show_obj (o : obj) : bytes := show_data (o_data o) ++ B":" ++ show_flags o.
+Definition show_svid (v : svid) : bytes :=
+  match v with SNone => B"-" | SNull => B"null" | SIdx n => show_nat n end.
 Definition show_res (r : res) : bytes :=
   match r with
   | ROk => B"ok" | RNoSuchBucket => B"NoSuchBucket" | RNoSuchKey => B"NoSuchKey"
   | RExists => B"BucketAlreadyExists" | RNotEmpty => B"BucketNotEmpty"
-  | RHead o => B"H:" ++ o_data o ++ B":" ++ show_flags o
+  | RPrecondition => B"PreconditionFailed" | RInvalidRange => B"InvalidRange"
+  | RDeleteMarker => B"DeleteMarker" | RMethodNotAllowed => B"MethodNotAllowed"
+  | RUploadNoSuchBucket => B"U:NoSuchBucket"
+  | RCopied v => B"ok:" ++ show_svid v
+  | RHead o => B"H:" ++ show_obj o
   | RList l => B"L:" ++ join B"," l
   end.
+Definition show_ver (v : ver) : bytes := match v with VMarker => B"DM" | VObj o => show_obj o end.
 Definition show_store (i : nat) (s : store) : bytes :=
-  show_nat i ++ B":" ++ join B"," (map (fun be => fst be ++ B"{" ++ join B"," (map (fun ko => fst ko ++ B"=" ++ o_data (snd ko) ++ B":" ++ show_flags (snd ko)) (snd be)) ++ B"}") s).
+  show_nat i ++ B":" ++ join B"," (map (fun be =>
+    fst be ++ (if b_versioned (snd be) then B"!" else []) ++ B"{"
+    ++ join B"," (map (fun kv => fst kv ++ B"=" ++ join B"|" (map show_ver (snd kv)))
+                      (filter (fun kv => negb (is_nil (snd kv))) (b_keys (snd be)))) ++ B"}") s).
 
 Definition parse_cfg (t : bytes) : option cfg :=
   if bytes_eqb t B"-" then Some []
   else mapM (fun e => match split_on ":"%byte e with
                       | [b; i] => option_map (fun n => (b, n)) (parse_nat i)
                       | _ => None end) (split_on ","%byte t).
+Definition parse_data (d : bytes) : bytes := if bytes_eqb d B"E" then [] else d.
 Definition mkobj (d : bytes) (meta mp : bool) : obj :=
-  {| o_data := d; o_c := meta; o_u := meta; o_t := meta; o_m := mp |}.
-Definition parse_op (t : bytes) : option op :=
-  match split_on ","%byte t with
-  | [o; b] => if bytes_eqb o B"cb" then Some (CreateBucket b) else if bytes_eqb o B"db" then Some (DeleteBucket b) else None
-  | [o] => if bytes_eqb o B"lb" then Some ListBuckets else None
-  | [o; b; k] => if bytes_eqb o B"del" then Some (Del b k) else if bytes_eqb o B"head" then Some (Head b k) else None
-  | [o; b; k; d] => if bytes_eqb o B"mput" then Some (Put b k (mkobj d false true)) else None
-  | [o; b; k; d; m] =>
-      if bytes_eqb o B"put" then option_map (fun mb => Put b k (mkobj d mb false)) (parse_bool m)
-      else if bytes_eqb o B"cp" then Some (Copy b k d m) else None
+  {| o_data := parse_data d; o_c := meta; o_u := meta; o_t := meta; o_m := mp; o_lm := 0 |}.
+Definition parse_vid (t : bytes) : option (option nat) :=
+  if bytes_eqb t B"-" then Some None else option_map Some (parse_nat t).
+Definition parse_range (t : bytes) : option range :=
+  if bytes_eqb t B"-" then Some RgNone
+  else match split_first ":"%byte t with
+       | Some ([], n) => option_map RgSuffix (parse_Z n)
+       | Some (s, []) => option_map (fun s => RgSpan s None) (parse_Z s)
+       | Some (s, e) => match parse_Z s, parse_Z e with Some s, Some e => Some (RgSpan s (Some e)) | _, _ => None end
+       | None => None
+       end.
+Definition parse_ec (b : byte) : option etag_cond :=
+  if beqb b "E"%byte then Some EEq else if beqb b "W"%byte then Some EWild
+  else if beqb b "X"%byte then Some EOther else None.
+(* condition items; times are given relative to the source's Last-Modified second, so they are
+   kept as offsets here and made absolute when the source is known *)
+Record rconds := { r_im : option etag_cond; r_inm : option etag_cond; r_ius : option Z; r_ims : option Z }.
+Definition parse_cond_item (acc : rconds) (t : bytes) : option rconds :=
+  match t with
+  | a :: b :: rest =>
+      let tag := [a; b] in
+      if bytes_eqb tag B"im" then match rest with [x] => option_map (fun e => {| r_im := Some e; r_inm := r_inm acc; r_ius := r_ius acc; r_ims := r_ims acc |}) (parse_ec x) | _ => None end
+      else if bytes_eqb tag B"nm" then match rest with [x] => option_map (fun e => {| r_im := r_im acc; r_inm := Some e; r_ius := r_ius acc; r_ims := r_ims acc |}) (parse_ec x) | _ => None end
+      else if bytes_eqb tag B"us" then option_map (fun d => {| r_im := r_im acc; r_inm := r_inm acc; r_ius := Some d; r_ims := r_ims acc |}) (parse_Z rest)
+      else if bytes_eqb tag B"ms" then option_map (fun d => {| r_im := r_im acc; r_inm := r_inm acc; r_ius := r_ius acc; r_ims := Some d |}) (parse_Z rest)
+      else None
   | _ => None
+  end.
+Definition parse_conds (t : bytes) : option rconds :=
+  let z := {| r_im := None; r_inm := None; r_ius := None; r_ims := None |} in
+  if bytes_eqb t B"-" then Some z
+  else fold_left (fun acc it => match acc with Some a => parse_cond_item a it | None => None end) (split_on "+"%byte t) (Some z).
+
+(* parsed operation: copies still carry relative times *)
+Inductive pop := POp (o : op) | PCopy (part : bool) (sb sk db dk : bytes) (vid : option nat) (r : range) (rc : rconds).
+
+Definition parse_op (t : bytes) : option pop :=
+  match split_on ","%byte t with
+  | [o; b] => if bytes_eqb o B"cb" then Some (POp (CreateBucket b false)) else if bytes_eqb o B"cbv" then Some (POp (CreateBucket b true))
+              else if bytes_eqb o B"db" then Some (POp (DeleteBucket b)) else None
+  | [o] => if bytes_eqb o B"lb" then Some (POp ListBuckets) else None
+  | [o; b; k] => if bytes_eqb o B"del" then Some (POp (Del b k)) else if bytes_eqb o B"head" then Some (POp (Head b k None)) else None
+  | [o; b; k; d] => if bytes_eqb o B"mput" then Some (POp (Put b k (mkobj d false true)))
+                    else if bytes_eqb o B"head" then option_map (fun n => POp (Head b k (Some n))) (parse_nat d) else None
+  | [o; b; k; d; m] =>
+      if bytes_eqb o B"put" then option_map (fun mb => POp (Put b k (mkobj d mb false))) (parse_bool m)
+      else if bytes_eqb o B"cp" then Some (PCopy false b k d m None RgNone {| r_im := None; r_inm := None; r_ius := None; r_ims := None |}) else None
+  | [o; sb; sk; db; dk; v; r; cn] =>
+      match parse_vid v, parse_range r, parse_conds cn with
+      | Some v, Some r, Some cn =>
+          if bytes_eqb o B"cp" then Some (PCopy false sb sk db dk v r cn)
+          else if bytes_eqb o B"upc" then Some (PCopy true sb sk db dk v r cn) else None
+      | _, _, _ => None
+      end
+  | _ => None
+  end.
+
+(* make the relative times absolute: source Last-Modified second + d seconds (the harness does the
+   same with the real source's Last-Modified); unknown source: any instant *)
+Definition resolve (c : cfg) (w : world) (p : pop) (now : Z) : op :=
+  match p with
+  | POp (Put b k o) => Put b k {| o_data := o_data o; o_c := o_c o; o_u := o_u o; o_t := o_t o; o_m := o_m o; o_lm := now |}
+  | POp o => o
+  | PCopy part sb sk db dk vid r rc =>
+      let lm := match find_version (get_store w (route c sb)) sb sk vid with inr (o, _) => o_lm o | inl _ => now end in
+      let abs d := (trunc_s lm + d * 1000)%Z in
+      let co := {| co_vid := vid; co_range := r;
+                   co_conds := {| c_im := r_im rc; c_inm := r_inm rc; c_ius := option_map abs (r_ius rc); c_ims := option_map abs (r_ims rc) |} |} in
+      if part then PartCopy sb sk db dk co else Copy sb sk db dk co
+  end.
+
+Fixpoint run_parsed (c : cfg) (n : Z) (w : world) (ops : list pop) : world * list res :=
+  match ops with
+  | [] => (w, [])
+  | p :: r => let now := (n * 1000 + 537)%Z in
+              let '(w1, x) := step c now w (resolve c w p now) in
+              let '(w2, xs) := run_parsed c (n + 1)%Z w1 r in (w2, x :: xs)
   end.
 
 Definition run_line (l : bytes) : bytes :=
@@ -169,7 +420,7 @@ Definition run_line (l : bytes) : bytes :=
   | [c; ops] =>
       do c <- parse_cfg c;
       do ops <- mapM parse_op (split_on ";"%byte ops);
-      let '(w, rs) := run c [[]; []; []] ops in
+      let '(w, rs) := run_parsed c 1%Z [[]; []; []] ops in
       join B";" (map show_res rs) ++ B" | " ++ unwords [show_store 0 (get_store w 0); show_store 1 (get_store w 1); show_store 2 (get_store w 2)]
   | _ => parse_error
   end.
